@@ -71,16 +71,15 @@ def orders(dim, terms, uhat, lmax=LMAX):
     return out
 
 
-def bounds(dim, terms, uhat, lmax=LMAX):
-    """per-order magnitude bound {n: sum_p |uhat^pow(p)| * sum|entries of c[p]|}: a condition-aware scale for
-    tolerances (entrywise 1-norm, submultiplicative under matrix products)"""
+def bounds(dim, terms, uhat=None, lmax=LMAX):
+    """per-order magnitude bound {n: sum_p sum|entries of c[p]|}: the scale of the round-off of any re-expression of
+    the angular part (the monomials of a unit vector are bounded by 1, and equivalent representations - e.g. after a
+    projection through the harmonics - cancel between monomials, so the bound must not be weighted with the monomial
+    values at the particular direction).  Entrywise 1-norm, hence submultiplicative under matrix products."""
     out = {}
     for n, l, c in terms:
         c = np.asarray(c)
-        cnt = npow(dim, l)
-        mon = np.abs(monomials(dim, uhat, cnt, lmax))
-        s = float(np.dot(mon, np.abs(c).reshape(cnt, -1).sum(axis=1)))
-        out[n] = out.get(n, 0.0) + s
+        out[n] = out.get(n, 0.0) + float(np.abs(c).sum())
     return out
 
 
